@@ -25,6 +25,7 @@ type worldOpts struct {
 	forceRolling  bool
 	orphanRevs    bool
 	eventMode     bool
+	heldRollouts  bool // construct partition-held rollouts even when constructed == 0
 	untyped       bool // also draw sets whose updateStrategy.type is omitted (the CRD does not default it)
 }
 
@@ -55,7 +56,8 @@ func genWorld(rt *rapid.T, o worldOpts) World {
 		w.Spec.PolicyOmitted = true
 	}
 	w.Hist = genHist(rt)
-	if o.constructed > 0 && !(w.Spec.Strategy >= 4) && rapid.IntRange(0, 7).Draw(rt, "heldRollout") == 0 {
+	held := false
+	if (o.constructed > 0 || o.heldRollouts) && !(w.Spec.Strategy >= 4) && rapid.IntRange(0, 7).Draw(rt, "heldRollout") == 0 {
 		// a rollout held by the partition: pods at or above it updated and Ready, pods below it at the previous
 		// (current) revision, one of them possibly Failed / Succeeded / unready
 		w.Spec.Strategy = 0
@@ -67,6 +69,7 @@ func genWorld(rt *rapid.T, o worldOpts) World {
 		if len(w.Hist) < 2 {
 			w.Hist = []int{w.Hist[0], (w.Hist[0] + 1) % 4}
 		}
+		held = true
 		n := len(w.Hist)
 		w.CurRev = n - 2
 		odd := rapid.IntRange(0, int(w.Spec.Partition)-1).Draw(rt, "heldOdd")
@@ -93,6 +96,13 @@ func genWorld(rt *rapid.T, o worldOpts) World {
 		}
 	}
 	w.Ops = genOps(rt, o.maxOps, o.weights, o.faults, o.interference)
+	if held && o.faults && rapid.Bool().Draw(rt, "heldCreateFault") {
+		// the held rollout meets a failing pod create (or delete) right away: the reconcile that replaces the
+		// finished pod below the partition is the one whose partial work must not be taken for a completed rollout
+		first := Op{K: OpReconcile, FaultAt: rapid.SampledFrom([]int{-2, -2, -3}).Draw(rt, "heldFaultAt"),
+			Fault: rapid.SampledFrom([]int{FServerError, FTimeoutLost, FAlreadyExists, FTimeoutApplied}).Draw(rt, "heldFault")}
+		w.Ops = append([]Op{first, {K: OpReconcile}}, w.Ops...)
+	}
 	w.CloseLag = rapid.SampledFrom([]int{0, 0, 1, 1, 2}).Draw(rt, "closeLag")
 	w.EventMode = o.eventMode && rapid.IntRange(0, 2).Draw(rt, "eventMode") == 0
 	return w
